@@ -147,3 +147,39 @@ func VerifH_C04_dies_in_handshake() {
 	verif.Assert(tr != nil && ps.ClientsCount() == before+1, "a later handshake is unaffected")
 	_ = types.NULL
 }
+
+// VerifH_C04_upgrade_then_close: histories that include an upgrade attempt (completed,
+// abandoned by the candidate, or timed out) before the session closes: the closed session
+// leaves the table and the count drops, exactly as without an upgrade.
+func VerifH_C04_upgrade_then_close() {
+	verif.RunTimed(func() {
+		w := newUpWorld()
+		cand := w.candidate()
+		w.sock.MaybeUpgrade(cand)
+		cur := w.ft
+		switch verif.Choose(4) {
+		case 0: // completed
+			cand.OnPacket(probePing())
+			cand.OnPacket(&packet.Packet{Type: packet.UPGRADE, Data: types.NewStringBufferString("")})
+			cur = cand
+		case 1: // candidate goes away
+			cand.OnClose()
+		case 2: // candidate misbehaves
+			cand.OnPacket(&packet.Packet{Type: packet.MESSAGE, Data: types.NewStringBufferString("x")})
+		case 3: // upgrade timeout
+			verif.SleepUntil(verif.Now() + int64(w.ps.Opts().UpgradeTimeout()))
+		}
+		verif.Assert(w.ps.Clients().Len() == 1 && w.ps.ClientsCount() == 1 && w.sock.ReadyState() == "open", "the session is live and registered after the upgrade attempt")
+		switch verif.Choose(3) {
+		case 0:
+			cur.OnClose()
+		case 1:
+			w.sock.Close(true)
+		case 2:
+			cur.OnError("x", nil)
+		}
+		_, still := w.ps.Clients().Load(w.sock.Id())
+		verif.Assert(w.sock.ReadyState() == "closed" && !still, "a closed session is no longer reachable")
+		verif.Assert(w.ps.Clients().Len() == 0 && w.ps.ClientsCount() == 0, "table and count drop back")
+	})
+}
